@@ -188,9 +188,11 @@ def run(ctx):
                 ("verdict", order, lk, lv))
             ctx.case(("verdict", order in TAPS, lk, sign), None, nontrivial=False)
     # unsupported orders whose default length 2^order-1 is degenerate or huge: ValueError before anything is allocated
-    for order in [-1, -7, 63, 64, 1000, 7.5, 33]:
+    for order in [-1, -7, 63, 64, 1000, 7.5, 33] + [o_ for o_ in range(0, 41) if o_ not in TAPS]:        # every unsupported integer up to 40
         for lv in (None, 5):
             for sd in (3, None):
+                if isinstance(order, int) and 0 <= order <= 40 and (lv is None or sd is None):
+                    continue                      # the sweep: explicit length and seed only
                 try:
                     with warnings.catch_warnings():
                         warnings.simplefilter("ignore")
